@@ -8,6 +8,7 @@
    (a folded response value containing ':') is a counter-example to the full statement on the unchanged code. -/
 import HtpModel.Lemmas.Parse
 import HtpModel.Lemmas.ReqLine
+import HtpModel.Pinned.Eq
 
 namespace Htp.C02
 open Htp Htp.Gen Htp.Parse
@@ -241,5 +242,9 @@ theorem C02_method_table :
     Htp.Parse.methodNumber (b!"TRACE") = 8 ∧ Htp.Parse.methodNumber (b!"PATCH") = 9 ∧ Htp.Parse.methodNumber (b!"HEAD") = 1 ∧
     Htp.Parse.methodNumber (b!"get") = 0 ∧ Htp.Parse.methodNumber (b!"GETX") = 0 ∧ Htp.Gen.methodTableBytes.length = 28 ∧
     Htp.Gen.M_GET = 2 ∧ Htp.Gen.M_HEAD = 1 ∧ Htp.Gen.M_PUT = 3 ∧ Htp.Gen.M_POST = 4 ∧ Htp.Gen.M_CONNECT = 6 := by decide
+
+/-- **C02 (class tables, base64, methods and constants are the reviewed ones)**: snapshot pins of the regenerated definitions the line parsers use -/
+theorem C02_class_tables_pinned : Htp.Pinned.ClassTablesPinned := Htp.Pinned.classTables_pinned
+theorem C02_constants_pinned : Htp.Pinned.ConstantsPinned := Htp.Pinned.constants_pinned
 
 end Htp.C02
